@@ -14,6 +14,7 @@ THEOREMS = [
     "Mesa.Legacy.C09_hex_spec",
     "Mesa.Legacy.C09_hex_cells_in_grid",
     "Mesa.Legacy.C09_hex_tables_are_hexagonal",
+    "Mesa.Legacy.C09_hex_get_neighbors_exact",
     "Mesa.Legacy.C09_neighbors_spec",
     "Mesa.Legacy.C09_get_neighbors_exact",
     "Mesa.Legacy.C09_network_spec",
@@ -31,7 +32,7 @@ TRUSTED = [
     "numpy fancy indexing in get_neighborhood_mask (modelled: mask[c] = c in neighbourhood)",
     "the hex offset tables are regenerated from mesa/space.py on every run (Gen/LegacyTables.lean) and the table theorems re-checked",
 ]
-ASSUMPTIONS = ["hexagonal tori have an even width (the property's quantifier); the centre passed to a hex query is a cell of the grid",
+ASSUMPTIONS = ["hexagonal tori have an even width (the property's quantifier); hex centres outside the grid are modelled and tied but not judged by the oracle",
                "NetworkGrid graphs are simple undirected graphs on nodes 0..n-1"]
 RULE = ("(a) exhaustive small scope, run first on every check: every (centre, radius, moore, include_center) on every SingleGrid up to "
         "4x4 (thorough 6x6), radii {1,2,3,7}, torus on/off, and every (centre, radius, include_center) on every HexMultiGrid of that size "
@@ -39,7 +40,8 @@ RULE = ("(a) exhaustive small scope, run first on every check: every (centre, ra
         "answered from the cache; (b) random scenarios: the four grid classes at sizes 1..7 with random placements, 8-30 queries from "
         "{get_neighborhood, iter_neighborhood, get_neighbors, iter_neighbors, get_neighborhood_mask, get_cell_list_contents (list and bare "
         "tuple), iter_cell_list_contents} with repeated keys (30%), out-of-grid centres, radii up to beyond the grid size, moves between "
-        "queries; (c) NetworkGrid on random simple graphs with 1..8 nodes, radii 0..n+1. "
+        "queries, radius 0, hex centres outside the grid (5%), cell lists with arbitrary integers (20% of the lists), get_neighborhood_mask on hex "
+        "classes (TypeError), half of the MultiGrid scenarios with 2-4 agents stacked on one cell that is then queried with both include_center values; (c) NetworkGrid on random simple graphs with 1..8 nodes, radii 0..n+1, 4% of the queries on a node that is not in the graph. "
         "non-trivial = at least 4 successful neighbourhood queries of which one has radius >= 2")
 
 
@@ -88,6 +90,11 @@ def tags(sc, obs):
         yield "op:" + k
         if o.startswith("err"):
             yield f"reject:{k}:{o.split()[1]}"
+        if k in Q and w[1] != "net":
+            if not (0 <= int(t[1]) < W and 0 <= int(t[2]) < H):
+                yield "branch:centre-outside-grid"
+            if int(t[-1]) == 0:
+                yield "branch:radius-0"
         if k in Q:
             key = " ".join(t[1:])
             if key in seen:
